@@ -86,6 +86,7 @@ func (fc *FuncCtx) instr(in ssa.Instruction, st *State, reach string) *State {
 			}
 			tv := fc.setVal(x, fc.loadLoc(l, st))
 			q.assume(fc.wf(tv.T, x.Type()))
+			q.assume(fc.allocd(tv.T, x.Type(), st.get("$wm")))
 			if _, ok := x.Type().Underlying().(*types.Pointer); ok {
 				// loaded references are allocated (closure of the heap under the watermark is assumed)
 			}
@@ -168,6 +169,9 @@ func (fc *FuncCtx) instr(in ssa.Instruction, st *State, reach string) *State {
 		case *types.Array:
 			fc.safety("index", reach, fmt.Sprintf("(and (<= 0 %s) (< %s %d))", idx.T, idx.T, t.Len()), "array index in range")
 			fc.setVal(x, fmt.Sprintf("(select %s %s)", base.T, idx.T))
+		case *types.Basic: // string
+			fc.safety("index", reach, fmt.Sprintf("(and (<= 0 %s) (< %s (str.len %s)))", idx.T, idx.T, base.T), "string index in range")
+			fc.setVal(x, fmt.Sprintf("(str.at %s %s)", base.T, idx.T))
 		default:
 			fc.unsupported("Index on %s", x.X.Type())
 		}
@@ -237,7 +241,8 @@ func (fc *FuncCtx) instr(in ssa.Instruction, st *State, reach string) *State {
 		fc.closures[x] = x
 		return st
 	case *ssa.Call:
-		return fc.call(x, x.Common(), st, reach, x)
+		st = fc.call(x, x.Common(), st, reach, x)
+		return fc.runGhostSets(x, st, reach)
 	case *ssa.Defer:
 		c := x.Common()
 		rec := deferRec{guard: reach, call: c, instr: x}
